@@ -33,11 +33,11 @@ def check(ctx, rep):
     rep.require(init is not None, "Zipper.__init__ not found")
     hd = roles.input_callback(ctx, Z)
     SELF = ("param", "self")
-    OUT = ("attr", SELF, "out")
-    L = ("attr", SELF, "lock")
+    ZR = roles.op_roles(ctx, Z)
+    OUT, L, DONE = ZR.OUT, ZR.LOCK, ZR.DONE
 
     # ---- constructor
-    ps, it = ctx.paths(init, Z, depth=1, inline=_weak_only)
+    ps, it = ctx.paths(init, Z, depth=2, inline=_weak_only)
     saw = False
     slot_field = None
     count_field = None
@@ -51,8 +51,9 @@ def check(ctx, rep):
         src = elem[1]
         cb = r.d["args"][0]
         inner = roles.unwrap(ctx, p, cb, it)
-        ok = isinstance(inner, tuple) and inner[0] == "partial" and inner[1] == ("attr", SELF, hd.name) and len(inner[2]) == 1 and not inner[3]
-        idx = inner[2][0] if ok else None
+        tm, targs = roles.callback_target(ctx, Z, p, it, cb)
+        ok = tm is hd and targs is not None and len(targs) == 1
+        idx = targs[0] if ok else None
         ok = ok and isinstance(idx, tuple) and idx[0] == "index" and idx[1] == src and idx[2] == elem[2]
         rep.ob("R-INDEX", "Zipper.__init__: callback bound to the element's own index", ok, "the callback must be partial(self.handle_done, <index of this element from the same enumerate>), found %s" % fmt(inner), where_of(init, r.node), trace_of(p, r.seq))
         # the enumerated sequence is the slot list
@@ -74,7 +75,7 @@ def check(ctx, rep):
         outv = p.heap.get(OUT, OUT)
         chains = [c for c in p.calls() if c.d["callee"] is not None and c.d["callee"].name == "chain_cancel"]
         rep.ob("R-FANOUT", "Zipper.__init__: chain_cancel(output, input) per input", any(c.d["args"] in ((OUT, elem), (outv, elem)) for c in chains), "cancelling the output would not reach the inputs", where_of(init, r.node))
-        done0 = p.heap.get(("attr", SELF, "done"))
+        done0 = p.heap.get(DONE)
         rep.ob("R-TABLE", "Zipper.__init__: starts undecided", done0 == ("const", False), "", where_of(init))
     rep.require(saw and slot_field and count_field, "Zipper.__init__: registration loop / slot list / counter not identified")
     # the loop must reach every input even when an already-finished input decides the operation on the spot
@@ -97,7 +98,7 @@ def check(ctx, rep):
         atoms = {}
         for e in p.evs("branch"):
             t, v = e.d
-            if t == ("attr", SELF, "done"):
+            if t == DONE:
                 atoms.setdefault("done", v)
             elif isinstance(t, tuple) and t[0] == "call" and t[1] == ("attr", F, "cancelled"):
                 atoms.setdefault("cancelled", v)
@@ -105,13 +106,13 @@ def check(ctx, rep):
                 atoms.setdefault("exception", v)
             elif contains(t, CN) or (isinstance(t, tuple) and t[0] == "cmp" and contains(t, ("bin", "-", CN, ("const", 1)))):
                 atoms.setdefault("zero", (t, v, e))
-        dec = [e for e in p.evs("store") if e.d["target"] == ("attr", SELF, "done") and e.d["value"] == ("const", True)]
+        dec = [e for e in p.evs("store") if e.d["target"] == DONE and e.d["value"] == ("const", True)]
         slot = [e for e in p.evs("store") if e.d["target"][0] == "sub" and e.d["target"][1] == SL]
         cnt = [e for e in p.evs("store") if e.d["target"] == CN]
         res = [e for e in p.calls() if terminal_on(e, OUT, it, p) and q.call_name(e) == "set_result"]
         exc = [e for e in p.calls() if terminal_on(e, OUT, it, p) and q.call_name(e) in ("set_exception", "set_exception_info")]
         cxl = [e for e in p.calls() if q.call_name(e) == "cancel" and q.recv(e) == OUT]
-        state_evs = [e for e in p.evs("branch") if e.d[0] == ("attr", SELF, "done") or contains(e.d[0], CN)] + dec + slot + cnt
+        state_evs = [e for e in p.evs("branch") if e.d[0] == DONE or contains(e.d[0], CN)] + dec + slot + cnt
         rep.ob("R-ATOMIC", "Zipper.handle_done: state read and written under the lock", all(q.has_lock(e, L) for e in state_evs), "zipper state is touched without self.lock", where_of(hd), trace_of(p))
         for e in res + exc + cxl:
             rep.ob("R-ATOMIC", "Zipper.handle_done: output resolved outside the lock", not q.has_lock(e, L), "%s with self.lock held" % fmt(e.d["func"]), where_of(e.fn, e.node), trace_of(p, e.seq))
@@ -179,7 +180,7 @@ def check(ctx, rep):
             v = p.value
             if isinstance(v, tuple) and v[0] == "call" and v[2]:
                 v = v[2][0]  # track_future(x) when it is not summarised
-            ok = a == (("seq", (), ("param", fz.vararg), 0),) and isinstance(v, tuple) and v[0] == "attr" and v[2] == "out" and isinstance(v[1], tuple) and v[1][0] == "new" and v[1][1] == Z.key
+            ok = a == (("seq", (), ("param", fz.vararg), 0),) and isinstance(v, tuple) and v[0] == "attr" and v[2] == ZR.out and isinstance(v[1], tuple) and v[1][0] == "new" and v[1][1] == Z.key
             rep.ob("R-COMPOSE", "f_zip builds a Zipper over all inputs and returns its output", ok, "Zipper(%s), returns %s" % ([fmt(x) for x in a], fmt(p.value)), where_of(fz))
         else:
             kinds.add("none")
@@ -226,7 +227,12 @@ def check(ctx, rep):
                 else:
                     okz = q.deref(p, seq) == ("list", tuple(q.result_of(e) for e in ucalls))
             rep.ob("R-COMPOSE", "f_traverse zips the futures of all elements in order", okz, "f_zip called with %s" % ([fmt(q.deref(p, a)) for a in zc[0].d["args"]] if zc else None), where_of(ft), trace_of(p))
-            okm = len(mc) == 1 and zc and mc[0].d["args"][:1] == (q.result_of(zc[0]),) and mc[0].d["args"][1:] == (("name", "list"),) and not mc[0].d["kwargs"]
+            okm = len(mc) == 1 and bool(zc)
+            if okm:
+                fmi = mc[0].d["callee"]
+                bm = roles.bound(mc[0], prog) if fmi is not None else {}
+                vals = [bm.get(n) for n in (fmi.params if fmi is not None else [])]
+                okm = fmi is not None and len(vals) >= 2 and vals[0] == q.result_of(zc[0]) and vals[1] == ("name", "list") and all(v is None or v == ("const", None) for v in vals[2:]) and "*" not in bm and "**" not in bm
             rep.ob("R-COMPOSE", "f_traverse maps the zipped tuple to a list", okm, "f_map called with %s" % ([fmt(a) for a in mc[0].d["args"]] if mc else None), where_of(ft), trace_of(p))
     rep.require(kinds == {"fn raised", "ok"}, "f_traverse: expected a normal path and a path where fn raises")
     fs = prog.fn("sequence:f_sequence")
@@ -276,7 +282,8 @@ def _is_zero_test(t, v, dec, cn):
 
 
 def _weak_only(callee, ev, path):
-    return roles.inline_wrapper_ctor(callee, ev, path)
+    # wrapper objects around the callback, and the operation's own small helpers (a callback factory method)
+    return roles.inline_wrapper_ctor(callee, ev, path) or (callee.owner is not None and callee.owner.name == "Zipper" and callee.name != "__init__")
 
 
 def _copy_only(callee, ev, path):
